@@ -356,20 +356,20 @@ impl Interpreter {
                 state.stack.push_bigint(pos)?;
             }
             OpCodes::OP_NOT => {
-                let a = state.stack.pop_number()?;
+                let a = state.stack.pop_bigint()?;
 
-                let notted = match a {
-                    0 => 1,
+                let notted = match a.sign() {
+                    Sign::NoSign => 1,
                     _ => 0,
                 };
 
                 state.stack.push_number(notted)?;
             }
             OpCodes::OP_0NOTEQUAL => {
-                let a = state.stack.pop_number()?;
+                let a = state.stack.pop_bigint()?;
 
-                let notted = match a {
-                    0 => 0,
+                let notted = match a.sign() {
+                    Sign::NoSign => 0,
                     _ => 1,
                 };
 
